@@ -142,6 +142,17 @@ def check_roundtrip(x):
             return out.bad("C15/dump-output-not-serialisable", "jdumps(dump(%r)) raised %r" % (x, ex))
         if not gen.same(back, d):
             out.bad("C15/json-backend-changes-dump-output", "jloads(jdumps(%r)) = %r" % (d, back))
+    # the remaining parameters of dump() concern objects only: for plain data they must not change the outcome
+    for kw in ({"ignore": ["k", "", "é", 1, None]}, {"ignore_attribute": "k"}, {"serialize_method": "k"}, {"ignore": ("k",), "ignore_attribute": "", "serialize_method": ""}):
+        try:
+            d2 = jsonclass.dump(x, **kw)
+        except Exception as ex:
+            out.bad("C15/dump-raises-%s" % type(ex).__name__, "dump(%r, **%r) raised %r" % (x, kw, ex))
+            continue
+        if snapshot(d2, ids=False) != snapshot(d, ids=False):
+            out.bad("C15/dump-of-plain-data-depends-on-object-parameters", "dump(%r, **%r) = %r, without the parameter %r" % (x, kw, d2, d))
+        if snapshot(x) != before:
+            out.bad("C15/dump-modifies-its-argument", "dump(%r, **%r) changed its argument" % (x, kw))
     dsnap = snapshot(d)
     try:
         y = jsonclass.load(d)
@@ -229,20 +240,65 @@ def leg_failures(part, tier, shard, nshards):
     drive(part, "failures", failure_cases(tier), shard, nshards, check_failure)
 
 
-LEGS = {"roundtrip": leg_roundtrip, "failures": leg_failures}
+# -- long histories: the translator must behave on its N-th use as on its first -------------------------------
+
+AFTER = [[1, (2, {3}), {"k": [frozenset({"a"})]}], {"k": {"a": [(), {1: None}]}}, [[[[[[[[0]]]]]]]], (1.5, "é", None, True)]
+
+
+def longrun_cases(tier):
+    n = 3000 if tier == "thorough" else 400
+    for kind in ("failing-dumps", "failing-loads", "deep-failing-dumps", "successes", "mixed"):
+        yield (kind, n)
+
+
+def check_longrun(case):
+    kind, n = case
+    from mc.ref.server import BadSer
+
+    out = Out(cls="longrun/" + kind)
+    b = BadSer()
+    bad_load = {"k": [{"__jsonclass__": ["no_such_module_zz.Cls", []]}]}
+    for i in range(n):
+        try:
+            if kind == "failing-dumps" or (kind == "mixed" and i % 3 == 0):
+                jsonclass.dump([b])
+            elif kind == "deep-failing-dumps" or (kind == "mixed" and i % 3 == 1):
+                jsonclass.dump({"k": [1, (2, [{"z": [b]}])]})
+            elif kind == "failing-loads" or (kind == "mixed" and i % 3 == 2):
+                jsonclass.load(bad_load)
+            else:
+                jsonclass.load(jsonclass.dump(AFTER[i % len(AFTER)]))
+        except Exception:
+            pass
+    for x in AFTER:
+        sub = check_roundtrip(x)
+        for sig, detail in sub.viols:
+            out.bad(sig.replace("C15/", "C15/after-%d-uses/" % n, 1), "after %d %s: %s" % (n, kind, detail))
+    return out
+
+
+def leg_longrun(part, tier, shard, nshards):
+    drive(part, "long-histories", longrun_cases(tier), shard, nshards, check_longrun)
+
+
+LEGS = {"roundtrip": leg_roundtrip, "failures": leg_failures, "long-histories": leg_longrun}
 
 META = {
     "technique": "bounded-exhaustive enumeration of container nestings against a structural reference (type-exact comparison, deep before/after snapshots)",
     "rule": "roundtrip: every list/tuple/set/frozenset/dict of width <=2 over 16 primitive leaves (depth 1), plus depth 2 over reduced alphabets "
     "(quick: width 1 over all reduced depth-1 terms and width 2 over one representative per constructor; thorough: width 2 over all reduced depth-1 "
     "terms, and depth 3 over representatives); failures: 21 malformed/unresolvable descriptors x 10 embedding contexts (plain containers, bean fields, "
-    "nested beans) and a bean whose serialisation method raises x 6 contexts; every case is non-trivial; distinct by repr of the term",
+    "nested beans) and a bean whose serialisation method raises x 6 contexts; every roundtrip term is also dumped with each of dump()'s object-only parameters "
+    "(ignore, ignore_attribute, serialize_method) set, which must not change the outcome for plain data; long-histories: 400 (thorough 3000) failing dumps / "
+    "failing nested dumps / failing loads / successes / a mix, followed by round trips of 4 nested terms (the N-th use behaves like the first); every case is non-trivial; distinct by repr of the term",
     "bounds": {"quick": {"depth": 2, "width": 2}, "thorough": {"depth": 3, "width": 2}},
     "assumptions": ["bytes are excluded (property text)", "dict keys range over {'k','', 'é', 1, (1,2), None}"],
 }
 
 
 def replay(case):
+    if case["leg"] == "long-histories":
+        return check_longrun(eval(case["case"], {"__builtins__": {}}, {})).viols
     if case["leg"] == "failures":
         return check_failure(eval(case["case"], {"__builtins__": {}}, {})).viols
     x = eval(case["case"], {"__builtins__": {}, "set": set, "frozenset": frozenset}, {})
